@@ -63,9 +63,14 @@ type c15Inst struct {
 
 var c15Logger *logger2.Logger
 
+var c15ScratchDir string
+
 func c15NewInst() *c15Inst {
 	c := config.NewMeta()
-	c.Dir = kit.Scratch()
+	if c15ScratchDir == "" {
+		c15ScratchDir = kit.Scratch()
+	}
+	c.Dir = c15ScratchDir
 	s := NewStore(c, "127.0.0.1:8091", "127.0.0.1:8092", "127.0.0.1:8088")
 	s.Logger = c15Logger
 	s.NetStore = NewMockNetStorage()
@@ -344,7 +349,13 @@ func (dp *c15Dump) Lines() []string {
 
 // dump: the protobuf form that Snapshot/Persist would write (Data.Marshal, the message MarshalBinary
 // encodes), printed canonically.
-func (in *c15Inst) dump() (dp *c15Dump, err error) {
+var c15Buf = &c15Dumper{out: make([]byte, 0, 1<<16), path: make([]byte, 0, 512)}
+
+// dump keeps the text (for diffs); dumpHash only hashes, in a reused buffer.
+func (in *c15Inst) dump() (*c15Dump, error)     { return in.dumpX(true) }
+func (in *c15Inst) dumpHash() (*c15Dump, error) { return in.dumpX(false) }
+
+func (in *c15Inst) dumpX(keep bool) (dp *c15Dump, err error) {
 	defer func() {
 		if r := recover(); r != nil {
 			err = fmt.Errorf("PANIC in Marshal: %s", c15FirstLine(fmt.Sprint(r)))
@@ -353,10 +364,15 @@ func (in *c15Inst) dump() (dp *c15Dump, err error) {
 	in.s.mu.RLock()
 	pb := in.s.data.Marshal()
 	in.s.mu.RUnlock()
-	d := &c15Dumper{out: make([]byte, 0, 16384), path: make([]byte, 0, 256)}
+	d := c15Buf
+	d.out, d.path = d.out[:0], d.path[:0]
 	d.structv(reflect.ValueOf(pb).Elem())
 	sum := sha256.Sum256(d.out)
-	return &c15Dump{Text: d.out, Hash: hex.EncodeToString(sum[:16]),
+	var text []byte
+	if keep {
+		text = append([]byte(nil), d.out...)
+	}
+	return &c15Dump{Text: text, Hash: hex.EncodeToString(sum[:16]),
 		TermIndex: fmt.Sprintf("term=%d index=%d", pb.GetTerm(), pb.GetIndex())}, nil
 }
 
@@ -496,7 +512,7 @@ func (e *c15Env) c15Check(root int, path []int, cutFrom int) (res c15Result) {
 			taints[i] = c15Taint(a.s.data)
 		}
 		if i == n-1 && len(path) > 0 {
-			d, err := a.dump()
+			d, err := a.dumpHash()
 			if err != nil {
 				add("dump_failed", label(), err.Error())
 				return
@@ -523,7 +539,7 @@ func (e *c15Env) c15Check(root int, path []int, cutFrom int) (res c15Result) {
 	var dA *c15Dump
 	if !res.Panicked {
 		var err error
-		if dA, err = a.dump(); err != nil {
+		if dA, err = a.dumpHash(); err != nil {
 			add("dump_failed", label(), err.Error())
 			return
 		}
@@ -549,12 +565,21 @@ func (e *c15Env) c15Check(root int, path []int, cutFrom int) (res c15Result) {
 		if res.Panicked {
 			return
 		}
-		d, err := inst.dump()
+		d, err := inst.dumpHash()
 		if err != nil {
 			add("dump_failed", label(), what+": "+err.Error())
 			return
 		}
 		if d.Hash != dA.Hash {
+			// texts are only needed now (both instances are still in their final states)
+			if dA.Text == nil {
+				if full, err := a.dump(); err == nil && full.Hash == dA.Hash {
+					dA = full
+				}
+			}
+			if full, err := inst.dump(); err == nil && full.Hash == d.Hash {
+				d = full
+			}
 			diff, onlyA, onlyB := c15Diff(dA.Lines(), d.Lines(), 12)
 			kind := kindDump
 			if k := c15ClassifyDiff(onlyA, onlyB); k != "" && kindDump != "replica_divergence" {
